@@ -29,7 +29,11 @@ Coll(l) == { G("GC", l, N, <<>>),
 Mixed == { G("GC", "XYZ", N, <<PT("XY", C("XY")), LS("XYZ", <<C("XYZ"), D("XYZ")>>)>>),
            G("GC", "XYZM", N, <<PT("XYM", C("XYM")), PT("XYZ", C("XYZ"))>>),
            G("GC", "XYZM", N, <<G("GC", "XY", N, <<PT("XY", <<>>)>>), PT("XYZM", D("XYZM"))>>),
-           G("GC", "No", N, <<>>) }
+           G("GC", "No", N, <<>>),
+           \* collections whose members are all layout-less empty collections (still encodable: type code of XY)
+           G("GC", "No", N, <<G("GC", "No", N, <<>>)>>),
+           G("GC", "No", N, <<G("GC", "No", N, <<>>), G("GC", "No", N, <<G("GC", "No", N, <<>>)>>)>>),
+           G("GC", "XY", N, <<G("GC", "No", N, <<>>), PT("XY", C("XY"))>>) }
 Deep(l) == IF Rich THEN { G("GC", l, N, <<x, G("GC", l, N, <<y, G("GC", l, N, <<x>>)>>)>>) : x \in Leaf(l), y \in Multi(l) } ELSE {}
 Geoms == UNION {Leaf(l) \cup Multi(l) \cup Coll(l) \cup Deep(l) : l \in Layouts} \cup Mixed
 WithSrid == {[g EXCEPT !.srid = s] : g \in Geoms, s \in IF Rich THEN Srids ELSE {<<>>, <<0, 0, 16, 230>>, <<255, 255, 255, 255>>}}
